@@ -183,6 +183,30 @@ class Interp:
             self.defaults = getattr(self, "defaults", {})
             self.defaults[t] = self.ev(e.args[2], env)
             return [self.attrs[t]]
+        if isinstance(e, ast.Call) and isinstance(e.func, ast.Attribute) \
+                and e.func.attr in ("endswith", "startswith") \
+                and len(e.args) == 1 and isinstance(e.args[0], ast.Constant) \
+                and isinstance(e.args[0].value, str) \
+                and len(e.args[0].value) == 1:
+            # X.endswith("c") / X.startswith("c") for a one-character literal
+            c = e.args[0].value
+            outs = []
+            for t in self.ev(e.func.value, env):
+                if not isinstance(t, tuple):
+                    raise AnalysisError(f"{self.name}: {ast.unparse(e)}")
+                if not t:
+                    outs.append(False)
+                    continue
+                a = t[-1] if e.func.attr == "endswith" else t[0]
+                if is_char(a):
+                    outs.append(a == c)
+                elif isinstance(a, str) and c == "*":
+                    outs.append(False)      # opaque atoms contain no '*'
+                elif isinstance(a, tuple) and a[0] == "last" and c == "*":
+                    outs.append(False)
+                else:
+                    outs.extend([True, False])
+            return sorted(set(outs), key=str)
         if isinstance(e, ast.Call) and isinstance(e.func, ast.Name) \
                 and e.func.id == "len" and len(e.args) == 1:
             return [("LEN", v) for v in self.ev(e.args[0], env)]
